@@ -629,17 +629,21 @@ func (e *EnumType) Set(name string, value int64) error {
 	if value > e.max {
 		return fmt.Errorf("value %d for %s too large (maximum is %d)", value, name, e.max)
 	}
-	e.ToString[value] = name
-	e.ToInt[name] = value
-	if value >= e.last {
+	if len(e.ToInt) == 0 || value > e.last {
 		e.last = value
 	}
+	e.ToString[value] = name
+	e.ToInt[name] = value
 	return nil
 }
 
 // SetNext sets the name in e using the next possible value that is greater than
 // all previous values.
 func (e *EnumType) SetNext(name string) error {
+	if len(e.ToInt) == 0 {
+		// The first member is assigned zero.
+		return e.Set(name, 0)
+	}
 	if e.last == MaxEnum {
 		return fmt.Errorf("enum %q must specify a value since previous enum is the maximum value allowed", name)
 	}
